@@ -372,6 +372,8 @@ pub struct TempWs {
     pub dir: PathBuf,
     /// the directory `dir` is a symbolic link to, when the workspace is reached through one
     real: Option<PathBuf>,
+    /// files that live below INCLUDE_DIR instead (names, the subdirectory of INCLUDE_DIR, its path)
+    library: Option<(Vec<String>, String, PathBuf)>,
 }
 
 impl TempWs {
@@ -380,7 +382,7 @@ impl TempWs {
         let dir = base.join(format!("vcheck-ws-{}-{}", std::process::id(), DIR_SEQ.fetch_add(1, Ordering::SeqCst)));
         let _ = std::fs::remove_dir_all(&dir);
         std::fs::create_dir_all(&dir).expect("scratch dir");
-        TempWs { escape: false, dir, real: None }
+        TempWs { escape: false, dir, real: None, library: None }
     }
     /// a directory whose name has characters that editors and the `url` crate escape differently (`+`,
     /// `[`, `]`, a blank), and a client that escapes them all in the URIs it sends
@@ -405,7 +407,27 @@ impl TempWs {
         t.real = Some(real);
         t
     }
+    /// the files called `names` live in a directory of their own below INCLUDE_DIR (a library that
+    /// comes with the tools): they are included as "<subdirectory>/<name>" and found through INCLUDE_DIR
+    pub fn new_library(names: &[&str]) -> Option<TempWs> {
+        let mut t = TempWs::new();
+        let sub = t.dir.file_name()?.to_string_lossy().to_string();
+        let lib = Path::new(crate::ws::INC_DIR).join(&sub);
+        let _ = std::fs::remove_dir_all(&lib);
+        std::fs::create_dir_all(&lib).ok()?;
+        t.library = Some((names.iter().map(|n| n.to_string()).collect(), sub, lib));
+        Some(t)
+    }
+    /// the subdirectory of INCLUDE_DIR that holds the library files
+    pub fn library_subdir(&self) -> Option<&str> {
+        self.library.as_ref().map(|l| l.1.as_str())
+    }
     pub fn path(&self, name: &str) -> PathBuf {
+        if let Some((names, _, lib)) = &self.library {
+            if names.iter().any(|n| n == name) {
+                return lib.join(name);
+            }
+        }
         self.dir.join(name)
     }
     pub fn write(&self, name: &str, text: &str) {
@@ -447,6 +469,9 @@ impl TempWs {
 
 impl Drop for TempWs {
     fn drop(&mut self) {
+        if let Some((_, _, lib)) = &self.library {
+            let _ = std::fs::remove_dir_all(lib);
+        }
         if let Some(real) = &self.real {
             let _ = std::fs::remove_file(&self.dir);
             let _ = std::fs::remove_dir_all(real);
